@@ -121,6 +121,17 @@ theorem sorted_perm_eq : ∀ {l1 l2 : List Cand}, l1.Perm l2 → l1.Pairwise cle
     subst hab
     rw [sorted_perm_eq (List.Perm.cons_inv hp) h1.2 h2.2]
 
+theorem isSortedCands_of_pairwise (l : List Cand) (h : l.Pairwise cle) : isSortedCands l = true := by
+  induction l with
+  | nil => rfl
+  | cons a t ih =>
+    cases t with
+    | nil => rfl
+    | cons b r =>
+      rw [List.pairwise_cons] at h
+      have hab : candLess b a = false := h.1 b (by simp)
+      simp [isSortedCands, hab, ih h.2]
+
 /-! ### the greedy filter -/
 
 /-- consecutive kept candidates of the same kind do not overlap -/
